@@ -328,6 +328,29 @@ def run(chk):
                         rank_ok = True
                         rank_var = strip_casts(n["e"]).get("vid")
         stored = any(n.get("k") == "call" and n.get("name") == "emplace_back" and n.get("args") and strip_casts(n["args"][0]).get("vid") == rank_var for n in walk(f["body"])) if rank_var else False
+        if not rank_ok:
+            # the count may live in a local closure `count(param_types)` that is applied to func->get_param_types() and whose result is stored
+            for lam in (x for x in prog.fns if x.get("kind") == "lambda" and x["unit"] == f["unit"] and strip_targs(x["q"]).startswith(strip_targs(f["q"]) + "::<lambda")):
+                lflow = FnFlow(lam)
+                lincs = [n for n in walk(lam["body"]) if n.get("k") == "unop" and n.get("op") == "++" and strip_casts(n["e"]).get("rk") == "local"]
+                counted = None
+                for n in lincs:
+                    for c, t in lflow.facts(n):
+                        c = strip_casts(c)
+                        if c.get("k") == "unop" and c.get("op") == "!" and t:
+                            inner = strip_casts(c["e"])
+                            if inner.get("k") == "call" and inner.get("name") == "bare_equal" and "get_type_info" in expr_str(prog, lam, inner) and \
+                                    any(x.get("k") == "ref" and x.get("rk") == "param" for x in walk(inner.get("obj") or {})):
+                                counted = strip_casts(n["e"]).get("vid")
+                returns_count = counted is not None and any(n.get("k") == "return" and n.get("e") is not None and strip_casts(n["e"]).get("vid") == counted for n in walk(lam["body"]))
+                if not returns_count:
+                    continue
+                for n in walk(f["body"]):
+                    if n.get("k") == "call" and n.get("name") == "emplace_back" and n.get("args"):
+                        a0 = strip_casts(n["args"][0])
+                        if a0.get("k") == "call" and a0.get("op") == "()" and a0.get("fn") is not None and (prog.fn_by_id(f, a0["fn"]) or {}).get("q") == lam["q"] and \
+                                "get_param_types" in expr_str(prog, f, a0):
+                            rank_ok = stored = True
         # the attempt loop: i from 0 upward, attempt only candidates whose rank == i
         loops = [n for n in walk(f["body"]) if n.get("k") == "for" and any(x.get("k") == "call" and x.get("op") == "()" for x in walk(n.get("body") or {}))]
         order_ok = False
